@@ -18,7 +18,7 @@ NCPU = int(os.environ.get("VERIF_JOBS", os.cpu_count() or 8))
 SUT_DIRS = ["src/containers", "src/utilities", "src/internal", "src/internal/md5", "src/ipc"]
 SUT_EXTRA = ["src/extensions/qlog.c"]
 INCLUDES = ["-I%s/include/qlibc" % REPO, "-I%s/include" % REPO, "-I%s/src/internal" % REPO]
-WRAPS = "malloc,calloc,realloc,strdup,free,pthread_mutex_trylock,pthread_mutex_lock,pthread_mutex_unlock,usleep,time,fopen,write"
+WRAPS = "malloc,calloc,realloc,strdup,free,pthread_mutex_trylock,pthread_mutex_lock,pthread_mutex_timedlock,pthread_mutex_clocklock,pthread_mutex_unlock,usleep,time,fopen,write"
 NOBUILTIN = ["-fno-builtin-malloc", "-fno-builtin-calloc", "-fno-builtin-realloc", "-fno-builtin-strdup", "-fno-builtin-free"]
 SHIPPED = ["-std=gnu99", "-O2", "-g", "-DNDEBUG"]
 
